@@ -321,4 +321,73 @@ def run(ctx, prog):
                                                '' if g is not None and not g[1] else ' — in an in-memory backend nothing keeps a writer that already looked up its slot out of the renumbering'))
                 k6 += 1
         ctx.floor('C06.R6', 'exclusive store / index acquisitions in compact_tombstones', k6, 2, 'index.write, doc_store.write')
+    hot_topk_selection(ctx, prog)
     ctx.stat('functions_analysed', len(set(i['key'].split(' | ')[1] for i in ctx.instances)))
+
+
+def hot_topk_selection(ctx, prog):
+    """C06.R8 — which candidates of the exhaustive recent-write scan survive (R4 only decides that the scan visits every document)."""
+    rid = 'C06.R8'
+    ctx.rule(rid, 'top-k selection of the recent-write scan: inside the scan loop of HotTier::knn_search_with_cancel a document with a finite distance is either pushed into the '
+                  'candidate collection or dropped behind a test against the top of the bounded heap (BinaryHeap::peek); such a test is reached only once the heap holds k '
+                  'candidates, and the top it reads is the current one — no path leads from a push / pop on the full heap to the test without a new peek in between. A bound that '
+                  'was read before the last replacement is larger than the present k-th distance: a farther document then evicts a closer one (k = 1, order 5, 1, 3 returns 3) '
+                  'and an acknowledged, undrained document that is strictly closer than the k-th result is missing from the answer')
+    f = ctx.body(rid, 'HotTier::knn_search_with_cancel')
+    of = flow.Origin(f)
+    cyc = lambda bb: bb in f.reach(f.succ(bb))
+    heads = [c for c in f.calls if c.callee and c.is_('re:Iterator>::next$') and cyc(c.bb) and c.args and 'HotTier.documents' in flow.render(of.of_operand(c.args[0]))]
+    if len(heads) != 1 or heads[0].dest is None or heads[0].dest.get('p'):
+        ctx.missing(rid, 'knn_search_with_cancel: the scan loop over HotTier.documents (%d candidates)' % len(heads))
+        return
+    h = heads[0]
+    item = flow.render(of.of_local(h.dest['l'])) + '@Some'
+    s_e, _f = flow.outcome_edges(f, h)
+    starts = [e[1] for e in (s_e or [])]
+    body = set(b_ for b_ in (f.reach(starts, avoid_blocks=[h.bb]) | set(starts)) - {h.bb} if h.bb in f.reach([b_]))     # the loop body: the next iteration is still reachable
+    heap_call = lambda c, rx: bool(c.callee and re.search(r'BinaryHeap(<.*>)?::(%s)$' % rx, c.callee) and c.args)
+    pushes = [c for c in f.calls if c.bb in body and c.callee and re.search(r'(BinaryHeap|Vec|VecDeque)(<.*>)?::push(_back)?$', c.callee) and len(c.args) == 2 and
+              item in flow.render(of.of_operand(c.args[1]))]
+    muts = [c for c in f.calls if c.bb in body and heap_call(c, r'\w+') and not heap_call(c, r'len|is_empty|peek|iter|capacity|as_slice')]
+    peeks = {c.bb: c for c in f.calls if c.bb in body and heap_call(c, r'peek')}
+    tests = {}      # switch block -> peek blocks its operand is computed from
+    for i in sorted(body):
+        t = f.blocks[i]['t']
+        if t['k'] != 'switch':
+            continue
+        ps = set(x[3].bb for x in flow.calls_in(of.of_operand(t['on'])) if len(x) > 3 and x[3] is not None and heap_call(x[3], r'peek'))
+        if ps:
+            tests[i] = ps
+    fin_skip = [(i, tg) for i in sorted(body) if f.blocks[i]['t']['k'] == 'switch' for tg, p in flow.switch_edge_predicates(f, i, of) if re.match(r'^!bool\[f32::is_finite\(', p)]
+    test_edges = [(i, s_) for i in tests for s_ in f.succ(i)]
+    pb = [c.bb for c in pushes]
+    r_a = f.reach(starts, avoid_blocks=pb, avoid_edges=fin_skip + test_edges) | (set(starts) - set(pb))
+    ctx.inst(rid, f.short, 'a finite candidate is pushed, or dropped behind a test against the top of the heap', bool(starts) and bool(pushes) and h.bb not in r_a,
+             'the next document is reachable without pushing the current one and without a test computed from BinaryHeap::peek' if h.bb in r_a else
+             '%d pushes of the current document, %d tests against the top, %d heap changes in the loop' % (len(pushes), len(tests), len(muts)))
+    ctx.floor(rid, 'pushes of the scanned document in the scan loop', len(pushes), 1, 'fill and replace (2 on the pinned tree)')
+    if not tests:
+        ctx.inst(rid, f.short, 'no candidate is rejected at all (every finite document is pushed)', True, 'no test against the top of the heap in the loop')
+        return
+    # the heap is full when a candidate can be rejected
+    full_e = [(i, tg) for i in sorted(body) if f.blocks[i]['t']['k'] == 'switch' for tg, p in flow.switch_edge_predicates(f, i, of)
+              if re.match(r'^!cmp\[\+ BinaryHeap::len\(.*\) - arg:k <= -1\]$|^!cmp\[\+ arg:k - BinaryHeap::len\(.*\) >= 1\]$', p)]
+    r_d = f.reach(starts, avoid_blocks=[h.bb], avoid_edges=full_e) | set(starts)
+    early = sorted(i for i in tests if i in r_d)
+    ctx.inst(rid, f.short, 'a candidate is tested against the top only when the heap holds k', bool(full_e) and not early,
+             ('the test at %s is reachable while the heap holds fewer than k candidates' % f.loc_of(early[0])) if early else
+             ('no `len(heap) < k` test in normal form' if not full_e else 'tests against the top are behind the false edge of `len(heap) − k ≤ −1`'))
+    # changes of a FULL heap (behind the false edge of `len < k`): while the heap is filling no candidate is tested, whatever the bound is
+    behind_full = f.reach([tg for _, tg in full_e], avoid_blocks=[h.bb]) | set(tg for _, tg in full_e)
+    muts = [c for c in muts if c.bb in behind_full]
+    stale = []
+    for c in muts:
+        if c.to is None:
+            continue
+        for i, ps in sorted(tests.items()):
+            if i in (f.reach([c.to], avoid_blocks=ps) | ({c.to} - ps)):
+                stale.append((c, i, ps))
+    ctx.inst(rid, f.short, 'the top a candidate is tested against is read after the last replacement', bool(muts) and not stale,
+             ('after %s at %s the test at %s is reachable without a new BinaryHeap::peek (its bound was read at %s): the bound lags behind the heap, a farther document can replace a '
+              'closer one' % (flow.short(stale[0][0].callee), stale[0][0].loc, f.loc_of(stale[0][1]), sorted(peeks[p_].loc for p_ in stale[0][2] if p_ in peeks))) if stale else
+             '%d changes of the full heap, %d tests; every path from a change to a test passes the peek the test is computed from' % (len(muts), len(tests)))
